@@ -296,3 +296,15 @@ theorem whole_call_fwd_safe (caps : Caps) (t : Table) (a : Args) (hv : C01.ArgsV
   C01.driver_fwd_safe caps (Engine.tableInfo t) (Engine.engineFor t) a (engineFor_ok t).1 hv hc
 
 end Lou.ModelEngine
+
+namespace Lou.ModelEngine
+open Lou Lou.Drv
+
+/-- **whole_call_back_safe**: every access the backward driver performs in a call the whole-call model covers (B0 main
+    pass with or without context rules, literal multipass stages) is inside its buffer -/
+theorem whole_call_back_safe (caps : Caps) (srcCap : Int) (dotsFor : Nat → Nat) (t : Table) (a : Args)
+    (hv : C01.ArgsValid a) (hsrc : ((cutAtNul a.inbuf).length : Int) + 4 ≤ srcCap) (hc : C01.CapsOK caps a) :
+    ∀ x ∈ backAccesses caps srcCap (Engine.tableInfo t) dotsFor (Engine.engineForBack t) a, x.ok = true :=
+  C02.driver_back_safe caps srcCap (Engine.tableInfo t) dotsFor (Engine.engineForBack t) a (engineForBack_ok t) hv hsrc hc
+
+end Lou.ModelEngine
